@@ -71,7 +71,6 @@ try:
             except Exception:
                 msg = open(f, errors="replace").read()[:300] if os.path.exists(f) else ""
         checks[cid] = {"tier": tier, "exit": r.returncode, "violations": len(viol), "first_message": msg}
-        subprocess.run(["git", "-C", verif, "checkout", "-q", "--", "evidence/%s.json" % cid], capture_output=True)
         for f in glob.glob(os.path.join(verif, "replays", cid, "new-*")):
             os.remove(f)
     res["checks"] = checks
@@ -82,6 +81,7 @@ finally:
     shutil.rmtree(os.path.join(verif, ".work", "mod-" + h[:10]), ignore_errors=True)
     shutil.rmtree(os.path.join(verif, ".work", "c20", h[:10]), ignore_errors=True)
     shutil.rmtree(os.path.join(verif, ".work", "cfuzz", h[:10]), ignore_errors=True)
+    shutil.rmtree(os.path.join(verif, ".work", "alt", h[:8]), ignore_errors=True)
     for f in glob.glob(os.path.join(verif, ".work", "bin", "*-" + h[:8] + ".test")):
         os.remove(f)
 out = {"property": pid, "seed": X, "author_meta": meta, "confirmed_by_us": {k: res.get(k) for k in ("demo_location", "demo_passes_without_change", "patch_applies", "suite_passes_with_change", "demo_fails_with_change")},
